@@ -101,22 +101,45 @@ def queue_text(queue):
     return ";".join(out)
 
 
+def canon(text):
+    """CU1 and SWAP are symmetric in their two qubits (diag(1,1,1,e^{i theta}) / exchange):
+    the order in which the constructor names them is not observable, so it is normalised
+    on both sides before comparing."""
+    out = []
+    for item in text.split(";"):
+        t = item.split()
+        if len(t) >= 3 and t[0] in ("cu1", "swap"):
+            a, b = sorted((t[1], t[2]), key=lambda v: int(v) if v.isdigit() else -1)
+            t[1], t[2] = a, b
+        out.append(" ".join(t))
+    return ";".join(out)
+
+
+def real(fn):
+    """text produced by the real code, or the exception it raised (then the suite disagrees
+    and the direct search looks for the failing input)."""
+    try:
+        return fn()
+    except Exception as e:  # noqa: BLE001
+        return f"raised {type(e).__name__}: {e}"
+
+
 # ---------------------------------------------------------------------------
 # correspondence: Lean generators vs the real constructors' queues
 # ---------------------------------------------------------------------------
 
-def corr_suite(ctx, name, cases, keyf):
-    """cases: list of (driver line, real text, python snippet producing the real object, descr)."""
+def corr_suite(ctx, name, cases):
+    """cases: list of (driver line, text of the real code, description)."""
     outs = run_driver([c[0] for c in cases], driver=DRIVER)
     bad = []
-    for (line, real, descr), out in zip(cases, outs):
+    for (line, rtxt, descr), out in zip(cases, outs):
         ctx.case((name, line))
         ctx.stat(f"{name}")
-        if out != real:
-            bad.append((line, real, out, descr))
+        if canon(out) != canon(rtxt):
+            bad.append((line, rtxt, out, descr))
     if bad:
-        line, real, out, descr = bad[0]
-        ctx.log(f"{name}: model and implementation disagree on {descr}: model={out[:300]} real={real[:300]}")
+        line, rtxt, out, descr = bad[0]
+        ctx.log(f"{name}: model and implementation disagree on {descr}: model={out[:300]} real={rtxt[:300]}")
     ctx.ob(f"C20_corr_{name}", not bad, "correspondence",
            f"{len(bad)} disagreements; first: {bad[0][3]}: model={bad[0][2][:200]} real={bad[0][1][:200]}" if bad else "")
     return bad
@@ -131,14 +154,11 @@ def correspondence(ctx):
     cases = []
     for n in range(1, nmax + 1):
         for ws in (1, 0):
-            c = QFT(n, with_swaps=bool(ws))
-            cases.append((f"QFT {n} {ws}", queue_text(c.queue), f"QFT({n}, with_swaps={bool(ws)})"))
-    c = QFT(5)  # default argument
-    cases.append(("QFT 5 1", queue_text(c.queue), "QFT(5)"))
-    c = QFT(4, True, None, density_matrix=True)
-    cases.append(("QFT 4 1", queue_text(c.queue), "QFT(4, True, None, density_matrix=True)"))
+            cases.append((f"QFT {n} {ws}", real(lambda: queue_text(QFT(n, with_swaps=bool(ws)).queue)), f"QFT({n}, with_swaps={bool(ws)})"))
+    cases.append(("QFT 5 1", real(lambda: queue_text(QFT(5).queue)), "QFT(5)"))  # default argument
+    cases.append(("QFT 4 1", real(lambda: queue_text(QFT(4, True, None, density_matrix=True).queue)), "QFT(4, True, None, density_matrix=True)"))
     ctx.sample({"suite": "qft", "line": cases[4][0], "queue": cases[4][1]})
-    corr_suite(ctx, "qft", cases, None)
+    corr_suite(ctx, "qft", cases)
     # -- comp_basis_encoder
     cases = []
     allbits = [bits for n in range(1, 6) for bits in itertools.product((0, 1), repeat=n)]
@@ -148,26 +168,29 @@ def correspondence(ctx):
         line = f"CB {n} " + " ".join(map(str, bits))
         kind = rng.choice(["str", "list", "tuple", "liststr"])
         arg = {"str": "".join(map(str, bits)), "list": list(bits), "tuple": tuple(bits), "liststr": [str(b) for b in bits]}[kind]
-        cases.append((line, queue_text(E.comp_basis_encoder(arg).queue), f"comp_basis_encoder({arg!r})"))
+        cases.append((line, real(lambda: queue_text(E.comp_basis_encoder(arg).queue)), f"comp_basis_encoder({arg!r})"))
         v = int("".join(map(str, bits)), 2)
-        cases.append((f"CBI {n} {v}", queue_text(E.comp_basis_encoder(v, nqubits=n).queue), f"comp_basis_encoder({v}, nqubits={n})"))
-    corr_suite(ctx, "comp_basis", cases, None)
+        cases.append((f"CBI {n} {v}", real(lambda: queue_text(E.comp_basis_encoder(v, nqubits=n).queue)), f"comp_basis_encoder({v}, nqubits={n})"))
+    corr_suite(ctx, "comp_basis", cases)
     # -- GHZ
-    cases = [(f"GHZ {n}", queue_text(E.ghz_state(n).queue), f"ghz_state({n})") for n in range(2, nmax + 1)]
-    corr_suite(ctx, "ghz", cases, None)
+    cases = [(f"GHZ {n}", real(lambda: queue_text(E.ghz_state(n).queue)), f"ghz_state({n})") for n in range(2, nmax + 1)]
+    corr_suite(ctx, "ghz", cases)
     # -- RBS pairs / unary skeleton
     cases = []
     sizes = [(n, 0) for n in range(2, nmax + 1)] + [(n, 1) for n in (2, 4, 8, 16, 32)]
     for n, tree in sizes:
         arch = "tree" if tree else "diagonal"
-        circ, pairs = E._generate_rbs_pairs(n, arch)
-        ptxt = "|".join(" ".join(f"{int(a)},{int(b)}" for a, b in row) for row in pairs)
-        cases.append((f"PAIRS {n} {tree}", ptxt, f"_generate_rbs_pairs({n}, {arch!r})[1]"))
+        def ptxt():
+            circ, pairs = E._generate_rbs_pairs(n, arch)
+            flat = [p for row in pairs for p in row]
+            assert queue_text(circ.queue) == ";".join(f"rbs {int(a)} {int(b)} {k}" for k, (a, b) in enumerate(flat)), "circuit of _generate_rbs_pairs differs from its pair list"
+            return "|".join(" ".join(f"{int(a)},{int(b)}" for a, b in row) for row in pairs)
+        cases.append((f"PAIRS {n} {tree}", real(ptxt), f"_generate_rbs_pairs({n}, {arch!r})[1]"))
         if n <= 16:
             data = np.array([rng.uniform(-1, 1) for _ in range(n)])
-            cases.append((f"UNARY {n} {tree}", queue_text(E.unary_encoder(data, arch).queue), f"unary_encoder(<{n} reals>, {arch!r})"))
+            cases.append((f"UNARY {n} {tree}", real(lambda: queue_text(E.unary_encoder(data, arch).queue)), f"unary_encoder(<{n} reals>, {arch!r})"))
     ctx.sample({"suite": "rbs_pairs", "line": cases[-2][0], "pairs": cases[-2][1]})
-    corr_suite(ctx, "rbs_pairs", cases, None)
+    corr_suite(ctx, "rbs_pairs", cases)
     # -- Ehrlich walk
     cases = []
     emax = 11 if ctx.thorough else 9
@@ -186,7 +209,7 @@ def correspondence(ctx):
     E._ehrlich_algorithm = spy
     try:
         for n in range(2, 7):
-            E.binary_encoder(np.arange(1.0, 2**n + 1), "hyperspherical")
+            real(lambda: E.binary_encoder(np.arange(1.0, 2**n + 1), "hyperspherical"))
     finally:
         E._ehrlich_algorithm = orig
     for b in rec:
@@ -195,12 +218,13 @@ def correspondence(ctx):
             ctx.stat("ehrlich_nondefault_init")
     for init in inits:
         n = len(init)
-        strings, cat = orig(np.array(init))
-        txt = " ".join(strings) + " # " + ";".join(
-            f"{int(q[0])} {int(q[1])} " + ",".join(str(int(c)) for c in sorted(cs)) for q, cs in cat)
-        cases.append((f"EHR {n} " + " ".join(map(str, init)), txt, f"_ehrlich_algorithm(np.array({init}))"))
+        def etxt():
+            strings, cat = orig(np.array(init))
+            return " ".join(strings) + " # " + ";".join(
+                f"{int(q[0])} {int(q[1])} " + ",".join(str(int(c)) for c in sorted(cs)) for q, cs in cat)
+        cases.append((f"EHR {n} " + " ".join(map(str, init)), real(etxt), f"_ehrlich_algorithm(np.array({init}))"))
     ctx.sample({"suite": "ehrlich", "line": cases[4][0], "answer": cases[4][1]})
-    corr_suite(ctx, "ehrlich", cases, None)
+    corr_suite(ctx, "ehrlich", cases)
     # -- Hamming-weight encoder skeleton
     cases = []
     hmax = 8 if ctx.thorough else 7
@@ -210,11 +234,10 @@ def correspondence(ctx):
             for oc in (1, 0):
                 for fh in (0, 1):
                     data = np.array([rng.uniform(-1, 1) for _ in range(d)])
-                    c = E.hamming_weight_encoder(data, n, k, full_hwp=bool(fh), optimize_controls=bool(oc))
-                    cases.append((f"HW {n} {k} {oc} {fh}", queue_text(c.queue),
+                    cases.append((f"HW {n} {k} {oc} {fh}", real(lambda: queue_text(E.hamming_weight_encoder(data, n, k, full_hwp=bool(fh), optimize_controls=bool(oc)).queue)),
                                   f"hamming_weight_encoder(<{d} reals>, {n}, {k}, full_hwp={bool(fh)}, optimize_controls={bool(oc)})"))
     ctx.sample({"suite": "hw_skeleton", "line": cases[10][0], "queue": cases[10][1]})
-    corr_suite(ctx, "hw_skeleton", cases, None)
+    corr_suite(ctx, "hw_skeleton", cases)
 
 
 # ---------------------------------------------------------------------------
@@ -489,10 +512,13 @@ def search_layers(ctx):
                 for gname in ("CNOT", "RBS"):
                     ctx.case(("layer", n, arch, closed, gname))
                     ctx.stat("search:entangling_layer")
-                    c = E.entangling_layer(n, arch, gname, closed)
-                    got = [tuple(g.qubits) for g in c.queue]
-                    pars_ok = all(all(p == 0.0 for p in g.parameters) for g in c.queue)
-                    if got != exp or not pars_ok or any(g.__class__.__name__ != gname for g in c.queue):
+                    try:
+                        c = E.entangling_layer(n, arch, gname, closed)
+                        got = [tuple(g.qubits) for g in c.queue]
+                        pars_ok = all(all(p == 0.0 for p in g.parameters) for g in c.queue) and all(g.__class__.__name__ == gname for g in c.queue)
+                    except Exception as e:  # noqa: BLE001
+                        got, pars_ok = f"raised {type(e).__name__}: {e}", False
+                    if got != exp or not pars_ok:
                         ok = False
                         py = PRE + f"c = E.entangling_layer({n}, {arch!r}, {gname!r}, {closed})\nsys.exit(0 if [tuple(g.qubits) for g in c.queue] == {exp} else 1)\n"
                         ctx.fail(f"entangling_layer:{arch}", f"entangling_layer({n}, {arch!r}, {gname!r}, {closed}) gate pairs", py, expected=exp, observed=got, broken=["C20_search_layers"])
